@@ -211,7 +211,7 @@ def r4(ctx):
         if not checked:
             ctx.bad(R, f"{rid}:not-analysed", "", "could not locate the body that registers the stream")
     # the handle's halves release: Drop for ReadHalf / WriteHalf reach a release on every path (inside current_if_set)
-    for h in ("turmoil::net::tcp::stream::ReadHalf", "turmoil::net::tcp::stream::WriteHalf"):
+    for h in ("turmoil::net::tcp::stream::ReadHalf", "turmoil::net::tcp::stream::WriteHalf", "turmoil::net::tcp::stream::ConnectGuard"):
         d = ctx.w.drop_impl(h)
         if not d:
             ctx.bad(R, f"handle-drop:{h}", "", f"`{h}` has no Drop impl: the stream-table entry is never released")
@@ -224,8 +224,9 @@ def r4(ctx):
                 if cb and always_calls(ctx.w, cb, re.compile(r"Tcp::(reset_stream|close_stream_half)$")):
                     ok = True
         ctx.inst(R, f"handle-drop:{h}", ok, db.span, "Drop releases the entry on every path" if ok else
-                 f"Drop for `{h}` has a path that releases nothing")
-    ctx.floor(R, 5)
+                 f"Drop for `{h}` has a path that releases nothing: the stream-table entry stays registered with no handle owning it - its (ephemeral) port counts as "
+                 "in use for ever, also after the host was crashed and bounced")
+    ctx.floor(R, 6)
 
 
 def r5(ctx):
